@@ -959,3 +959,13 @@ impl<B: Buf> fmt::Debug for Prioritized<B> {
             .finish()
     }
 }
+
+#[cfg(feature = "verif")]
+impl Prioritize {
+    pub(super) fn verif_fill(&self, s: &mut crate::verif::VerifStats) {
+        let (w, a) = self.flow.verif_raw();
+        s.conn_send_window = w;
+        s.conn_send_available = a;
+        s.has_in_flight_data_frame = self.in_flight_data_frame != InFlightData::Nothing;
+    }
+}
